@@ -31,6 +31,8 @@ func checkC01(c *Ctx) {
 	c.Expect("C01-R17", 1)
 	c.Rule("C01-R18", "in sendFgBg the reset of both colours is emitted before any colour is selected (emitted afterwards it would wipe an RGB colour that was just selected for the other side)")
 	c.Expect("C01-R18", 1)
+	c.Rule("C01-R19", "the colour cache keeps the identity entries of the terminal's own palette (a palette colour is sent as its own index, not re-fitted by RGB distance onto a lower index with the same nominal value): the map is made once, where it is seeded, and never replaced; entries are only added")
+	c.Expect("C01-R19", 1)
 	c.Rule("C01-R13", "the underline attribute bit and the underline style stay in step (the painters draw from the style): every Style method that replaces attrs as a whole also sets ulStyle, every method that sets ulStyle also sets the bit")
 	c.Expect("C01-R13", 2)
 	c.Rule("C01-R12", "LockRegion locks exactly the cells of the rectangle it is given (cells outside it stay paintable)")
@@ -74,6 +76,44 @@ func checkC01(c *Ctx) {
 	checkStyleCacheWrites(c, p, "C01-R16")
 	checkHideCursor(c, p, "C01-R17", "tScreen")
 	checkResetBeforeColours(c, p, "C01-R18")
+	{
+		n, bad := 0, ""
+		for _, fn := range p.modFns {
+			if fn.Pkg != p.Tcell {
+				continue
+			}
+			for _, st := range storesTo(fn, "tcell.tScreen", "colors") {
+				n++
+				seeds := false
+				if mk, isMk := st.Val.(*ssa.MakeMap); isMk {
+					// seeded right there: an update k -> k on the same map in the same function
+					for _, r := range referrers(mk) {
+						_ = r
+					}
+					eachInstr(fn, func(in ssa.Instruction) {
+						if mu, isMU := in.(*ssa.MapUpdate); isMU && sameValue(mu.Key, mu.Value) {
+							if ref, _, okR := loadedField(mu.Map); okR && ref.Name == "colors" {
+								seeds = true
+							}
+						}
+					})
+				}
+				if !seeds {
+					bad += fmt.Sprintf("%s replaces the colour cache at %s without the palette's identity entries; ", fn.Name(), p.pos(st.Pos()))
+				}
+			}
+			eachInstr(fn, func(in ssa.Instruction) {
+				if cc := callCommon(in); cc != nil {
+					if b, isB := cc.Value.(*ssa.Builtin); isB && (b.Name() == "delete" || b.Name() == "clear") && len(cc.Args) >= 1 {
+						if ref, _, okR := loadedField(cc.Args[0]); okR && ref.Owner == "tcell.tScreen" && ref.Name == "colors" {
+							bad += fmt.Sprintf("%s removes entries from the colour cache at %s; ", fn.Name(), p.pos(in.Pos()))
+						}
+					}
+				}
+			})
+		}
+		c.Check(n == 1 && bad == "", "C01-R19", "colour-cache:identity-entries-kept", "-", fmt.Sprintf("%d store(s) of the map, made and seeded in one place; no deletion %s", n, bad))
+	}
 	if db := buildDB(c, p); db != nil {
 		for _, e := range db.entries {
 			n := e.Int["Colors"]
